@@ -57,6 +57,75 @@ CLAIMS = {
             "axis tuple / keepdims / n / prepend / append choice and compared with exact folds "
             "(det by Leibniz expansion up to 4x4).",
             "3 C10"),
+    "C03": ("invariant monitor (well-formedness + rebuild routes) on every polynomial crossing the API boundary",
+            "sys.monitoring PY_RETURN on all numpoly code objects delivers every polynomial returned "
+            "to a caller outside numpoly while the workloads of C01/C02/C05/C06/C09-C11/C19 run; "
+            "each is checked for the stated structural invariants and every 4th is rebuilt through "
+            "the three routes; a dedicated constructor workload checks term / name pruning under "
+            "the retain flags and the rejection of duplicates.",
+            "3 C03"),
+    "C08": ("differential monitor between spellings + dispatch spy for the negative half",
+            "Every catalogue entry (covering the registries, read at run time) is executed in all "
+            "its spellings and compared pairwise (type, shape, dtype, names, values, raise vs "
+            "return); operators and ufunc.reduce/accumulate against their functions; every "
+            "unregistered overridable numpy function, ufunc and ufunc method is called with "
+            "polynomials under a spy on __array_function__/__array_ufunc__ and must raise "
+            "FeatureNotSupported once the protocol is engaged.",
+            "3 C08"),
+    "C11": ("differential monitor against numpy on the raw numeric arrays",
+            "Every catalogue entry is run on constant polynomial arrays with ties, negatives and "
+            "zeros and compared (values, shape, dtype kind of boolean/index results) with the numpy "
+            "function on the underlying arrays; numeric division by a non-constant polynomial must "
+            "raise FeatureNotSupported.",
+            "3 C11"),
+    "C12": ("cast oracle + dual-poison differential on the allocator hook + ASan/UBSan on the native layer",
+            "All ordered pairs of the 14 numeric dtypes go through constructors, casts, arithmetic "
+            "and shape functions and are compared with numpy's own astype/result_type; every "
+            "catalogue operation is executed twice with differently poisoned fresh storage "
+            "(hook on ndpoly.__new__) and the output bytes are diffed; the dtype workload is "
+            "repeated on an ASan+UBSan build of the three native modules and report blocks counted.",
+            "3 C12"),
+    "C13": ("round-trip monitor (pickle / copy / text) with exact and precision-aware comparison",
+            "Seeded polynomial arrays go through pickle protocols 0-5, copy, deepcopy, .copy() "
+            "(exact reproduction) and savetxt -> loadtxt over formats, delimiters, headers, "
+            "comments and target kinds (shape, names, values to the precision of fmt); files "
+            "without the numpoly header must load like numpy.loadtxt.",
+            "3 C13"),
+    "C15": ("differential monitor across option configurations",
+            "Every operation of the catalogue is executed under the defaults and under a "
+            "non-default setting of the eight boolean options and display strings; model value (by "
+            "name), shape and dtype must agree and the setting must not make it fail.",
+            "3 C15"),
+    "C16": ("independent text reader as oracle on str/repr output + sympy round trip",
+            "str(p) and repr(p) under all display settings and sign pairs are split into elements "
+            "and parsed by an independent recursive-descent reader into the exact model, which must "
+            "equal the element; printed term order must follow the selected monomial order; "
+            "polynomial(to_sympy(p)) must equal p for 0-d int/float polynomials.",
+            "3 C16"),
+    "C17": ("snapshot monitor (M-IMM) at call entry / return / unwind via sys.monitoring + failpoints",
+            "Byte-level snapshots of every array / polynomial argument of every monitored numpoly "
+            "call are compared when the call returns or unwinds (boundary calls in quick, all "
+            "internal calls in thorough); a direct pass covers aligned operands, the same object "
+            "twice, raising calls and calls aborted half-way by injected faults.",
+            "3 C17"),
+    "C18": ("reference sort / brute-force enumeration oracle, repeated under three numpy sort kernels",
+            "glexsort is compared with a comparison-based reference on bounded-exhaustive and "
+            "random key matrices under numpy's AVX-512, AVX2 and scalar kernels; glexindex, bindex, "
+            "cross_truncate and monomial are compared with brute-force enumeration using exact "
+            "rational / 60-digit membership.",
+            "3 C18"),
+    "C19": ("reference-model monitor for leading terms, decomposition, set_dimensions and the sort proxy",
+            "lead_exponent / lead_coefficient / isconstant / tonumpy / todict / decompose / "
+            "set_dimensions are compared with the exact model; sortable_proxy must be a permutation "
+            "monotone in (leading exponent, leading coefficient); argmax/argmin/amax/amin without "
+            "axis must select an extreme element.",
+            "3 C19"),
+    "C20": ("exhaustive encode/decode monitor + exact big-exponent model + outcome classifier",
+            "Every exponent below 55000 in each position of 1-3 indeterminates is stored, read "
+            "back, decoded from the raw field names and rebuilt; products with a+b <= 600, random "
+            "tuples up to 1e5 through power / derivative / evaluation / alignment / pickling / text "
+            "files; outcomes classified correct / raised / WRONG.",
+            "3 C20"),
     "C14": ("history checker against a sequential stack model + injected faults",
             "All valid option histories up to the length bound are executed with real with-blocks "
             "and compared with a stack model after every step (exhaustive within the bound), plus "
